@@ -4,7 +4,7 @@ From V Require Import Base.Int Base.IO.
 From V Require Import Spec.Zone.
 From V Require Import Model.TzParser Model.TzRule Model.TzLookup Model.C05.
 From V Require Model.DateTime.
-From V Require Export Proofs.C05Table Proofs.C05Spec.
+From V Require Export Proofs.C05Table Proofs.C05Spec Proofs.C05Rule.
 Import ListNotations.
 Open Scope Z_scope.
 
@@ -225,3 +225,24 @@ Lemma ex_facts :
   find_local_time_type_from_local ex_zone 2023 1688169600 = Val (Ok (MSingle ex_cest)) /\
   instants_of_wall (szone_of ex_ps ex_cet) 1688169600 = [1688162400].
 Proof. split; [exact ex_table_zone|]. repeat split; vm_compute; reflexivity. Qed.
+
+(** The spacing hypothesis cannot be dropped: a valid zone whose second transition comes 600 s
+    after a one-hour fold.  The wall reading T1 + 1800 occurs once (at T1 - 1800, offset +1 h) but
+    the scan answers Ambiguous. *)
+Definition un_a := mk_ltt 3600 false (Some (B"AAA")).
+Definition un_b := mk_ltt 0 false (Some (B"BBB")).
+Definition un_c := mk_ltt 7200 true (Some (B"CCC")).
+Definition un_zone : timezone := mk_tz [mk_tr 1000000 1; mk_tr 1000600 2] [un_a; un_b; un_c] [] None.
+Definition un_ps : list (Z * ltt) := [(1000000, un_b); (1000600, un_c)].
+Lemma unspaced_refuted :
+  table_zone un_zone un_ps un_a /\ extra_rule un_zone = None /\ increasing (offs un_ps) = true /\
+  spacing_table (offs un_ps) (ut_offset un_a) = false /\
+  excepted_wall (szone_of un_ps un_a) 1001800 = false /\
+  find_local_time_type_from_local un_zone 1970 1001800 = Val (Ok (MAmbiguous un_a un_b)) /\
+  instants_of_wall (szone_of un_ps un_a) 1001800 = [998200].
+Proof.
+  split.
+  - constructor; [reflexivity|repeat constructor| |unfold o_ok; cbn; lia].
+    repeat constructor; cbn; unfold t_ok, o_ok; cbn; lia.
+  - repeat split; vm_compute; reflexivity.
+Qed.
